@@ -35,6 +35,7 @@ pub mod c10_qos;
 pub mod c11_matching;
 pub mod c12_lease;
 pub mod c14_msg;
+pub mod c15_discovery_wire;
 pub mod c20_waitack;
 
 use std::fmt::Write as _;
@@ -162,6 +163,7 @@ pub fn registry() -> Vec<Property> {
   v.push(c11_matching::property());
   v.push(c12_lease::property());
   v.push(c14_msg::property());
+  v.push(c15_discovery_wire::property());
   v.push(c20_waitack::property());
   v
 }
